@@ -77,6 +77,7 @@ def structured_docs():
         'inline-note-newline-only': 'x[>(a)\n] y [?(b)\n] z [^\n]\n',
         'meta-no-newline-multibyte': 'title: café\nauthor: \U0001F600',
         'meta-key-only': 'tivlVe:',
+        'image-with-empty-url': '![a]()\n\ntext ![b][r]\n\n[r]: <>\n',
         'long-transclusion-marker': 'a {{' + 'x' * 1500 + '}} b\n',
         'long-image-url': '![a](' + 'u' * 1500 + '.png)\n\n![b](pic.png "t")\n',
         'email-autolinks': '<a@b.c> <mailto:d@e.f>\n\n[^n]: <g@h.i>\n\ntext[^n]\n',
@@ -197,7 +198,7 @@ def run_regressions(reg, ev):
             if p.returncode != 0:
                 # find the culprits one by one
                 for path in paths:
-                    ok, sig, _err = fuzz.execute(b, path, _env(mode))
+                    ok, sig, _err = fuzz.execute(b, path, _env(mode), hang_is_failure=True)      # alone and unloaded: 60 s means it never returns
                     if not ok:
                         fails.append((path, v, mode, sig))
     return fails
@@ -212,7 +213,7 @@ def replay(path):
     bad = False
     for v in VARIANTS:
         for m in modes:
-            ok, sig, err = fuzz.execute(binary(v), path, _env(m))
+            ok, sig, err = fuzz.execute(binary(v), path, _env(m), hang_is_failure=True)
             if not ok:
                 common.violation(PROP, path, '%s variant=%s mode=%s' % (sig, v, m))
                 print(err[-3000:])
@@ -227,7 +228,7 @@ def run(tier):
     ev.rule = RULE
     ev.assumptions = ['text APIs receive NUL-terminated strings (input is cut at the first NUL); ITMZ import receives arbitrary bytes with length',
                       'vendored miniz.c is built with ASan but without UBSan (deliberate unaligned loads)',
-                      'timeouts / out-of-memory artifacts are load noise and are not verdicts (counted under inconclusive)',
+                      'timeouts / out-of-memory artifacts of the loaded campaign are noise (counted under inconclusive) unless the input, re-executed alone, still does not finish within 60 s: that is reported as hang@<function>',
                       'critic range arguments are drawn inside the string; language in 0..6; exit() from a writer is counted for C02, not here']
     known = common.Known()
     work = common.scratch_dir('c01')
@@ -277,6 +278,10 @@ def run(tier):
             ev.inconclusive.append('%s: %d crash artifacts did not reproduce' % (c.name, unrepro))
         for sig, paths in cl.items():
             failures.append((paths[0], c.variant, c.mode, sig))
+        # an input that does not finish alone within 60 s (typical: milliseconds) never returns control: a crash by other means
+        for sig, paths in fuzz.confirm_hangs(c.binary, c.art, _env(c.mode), limit=2 if tier == 'quick' else 8, secs=60).items():
+            failures.append((paths[0], c.variant, c.mode, sig))
+            ev.add_class('confirmed_hangs')
         # samples: a few new corpus entries
         new = sorted(f for f in os.listdir(c.corpus) if not f.startswith('seed-'))[:1]
         for f in new:
